@@ -113,7 +113,7 @@ impl Property for C07 {
         ]
     }
     fn plan(&self, tier: Tier) -> Plan {
-        Plan { workers: tier.pick(4, 16), cases_per_worker: tier.pick(50_000, 500_000), max_shrink_iters: 4000 }
+        Plan { workers: tier.pick(4, 16), cases_per_worker: tier.pick(250_000, 1_000_000), max_shrink_iters: 4000 }
     }
     fn selftest(&self) -> Result<serde_json::Value, String> {
         crate::selftest::arc_selftest()
